@@ -2851,6 +2851,17 @@ impl SctpInner {
         }
         let tsn = buf.get_u32();
 
+        // RFC 4960 6: DATA is not taken while our own handshake is still running (T1
+        // carries our INIT or COOKIE ECHO). The peer is established as soon as it has
+        // the COOKIE ECHO and may send at once; if its COOKIE ACK is lost, that DATA
+        // gets here first, and taking it would deliver messages on channels that are
+        // only announced open in handle_cookie_ack. It is discarded unacknowledged
+        // and comes again.
+        if self.t1_chunk.lock().is_some() {
+            debug!("SCTP: discarding DATA (tsn {}) received during our handshake", tsn);
+            return Ok(());
+        }
+
         // Deduplication and Ordering Check
         let cumulative_ack = self.cumulative_tsn_ack.load(Ordering::Relaxed);
         let diff = tsn.wrapping_sub(cumulative_ack);
